@@ -105,6 +105,77 @@ func flatToks(path, text string) []any {
 	return out
 }
 
+// leafTexts lists, in stream order, the texts of the leaves of the token tree of a text (real
+// lexer): non-skippable tokens, line comments, block comments.
+func leafTexts(path, text string) (solid, lineC, blockC []string) {
+	file, _, _ := parse(path, text)
+	tree, _, _ := printer.VerifTriviaDump(file.Stream())
+	var walk func(ts []printer.VerifTok)
+	walk = func(ts []printer.VerifTok) {
+		for _, t := range ts {
+			switch {
+			case t.Class >= 9:
+				solid = append(solid, t.Text)
+				walk(t.Children)
+				solid = append(solid, t.CloseText)
+			case t.Class == 2:
+				lineC = append(lineC, t.Text)
+			case t.Class == 3:
+				blockC = append(blockC, t.Text)
+			case t.Class > 4:
+				solid = append(solid, t.Text)
+			}
+		}
+	}
+	walk(tree)
+	return solid, lineC, blockC
+}
+
+// idemDiff says WHAT a second formatting pass changed (first match): "tokens" the sequence of
+// non-skippable tokens, "line-comment" the sequence of `//` comment texts, "block-comment-text" the
+// multiset of block comment texts (byte for byte, interior indentation included: some comment is
+// printed differently by the second pass), "comment-order" the same block comments in another
+// order, "layout" only the white space between tokens and comments.  With "block-comment-text"
+// the first comment of each pass that the other pass does not have is returned as well.
+func idemDiff(path, f1, f2 string) map[string]any {
+	s1, l1, b1 := leafTexts(path, f1)
+	s2, l2, b2 := leafTexts(path, f2)
+	kind := "layout"
+	out := map[string]any{}
+	switch {
+	case !slices.Equal(s1, s2):
+		kind = "tokens"
+	case !slices.Equal(l1, l2):
+		kind = "line-comment"
+	case !slices.Equal(b1, b2):
+		kind = "comment-order"
+		c1 := slices.Clone(b1)
+		c2 := slices.Clone(b2)
+		sort.Strings(c1)
+		sort.Strings(c2)
+		if !slices.Equal(c1, c2) {
+			kind = "block-comment-text"
+			only := func(xs, ys []string) string {
+				cnt := map[string]int{}
+				for _, y := range ys {
+					cnt[y]++
+				}
+				for _, x := range xs {
+					if cnt[x] == 0 {
+						return x
+					}
+					cnt[x]--
+				}
+				return ""
+			}
+			out["first"] = vhlib.Hx([]byte(only(b1, b2)))
+			out["second"] = vhlib.Hx([]byte(only(b2, b1)))
+		}
+	}
+	out["kind"] = kind
+	return out
+}
+
 func ints(xs []int) []any {
 	out := make([]any, len(xs))
 	for i, x := range xs {
@@ -438,6 +509,9 @@ func printerCase(in map[string]any) map[string]any {
 				r["err_2"] = err.Error()
 			}
 			r["f2"] = vhlib.Hx([]byte(f2))
+			if f2 != f1 {
+				r["idem"] = idemDiff(path, f1, f2)
+			}
 			if has("compile") && orig.err == "" {
 				c := compileOne(path, f1, files, dirs)
 				switch {
